@@ -37,6 +37,7 @@ func aliveOrd(g getf) string {
 	return g(vOrd0)
 }
 func addrSame(g getf) bool { return isT(g, aAddrEq) && g(aPortCmp) == "EQ" }
+
 // canReclaim: a left name, or a dead one whose age has passed the configured
 // reclaim time. The boundary (age exactly equal) is accepted either way.
 func canReclaim(g getf) bool {
